@@ -87,8 +87,9 @@ theorem rule_code_stays_inside_the_stack (is : List Instr) (s : St) (h : VOK s.v
 theorem no_code_leaves_the_stack (font : Font) (text : List Nat) (fuel : Nat) (dir : Nat) (hi : font.ipos ≤ font.passes.size)
     (hL : ∀ k, k < font.passes.size → 1 ≤ (font.passes.getD k default).maxLoop) {w : String} (e : shape font text fuel dir = .error w) :
     w ≠ "stack" := by
-  rcases shape_error font text fuel dir hi hL e with ⟨p, c, s, h⟩ | h
+  rcases shape_error font text fuel dir hi hL e with (⟨p, c, s, h⟩ | ⟨p, c, s, h⟩) | h
   · exact findNDoRule_noStack p c s h
+  · exact testPassConstraint_noStack p c s h
   · rw [h]; decide
 
 /-- non-vacuity: 1100 pushes (more than `STACK_MAX`) stop at the overflow test, 5 pops from an empty stack stop at the
@@ -129,7 +130,7 @@ theorem pipeline_stays_within_loop_bound (font : Font) (text : List Nat) (fuel :
 /-- the fuel of the model's recursion never ends a run -/
 theorem fuel_is_never_the_reason (font : Font) (text : List Nat) (fuel : Nat) (dir : Nat) (hi : font.ipos ≤ font.passes.size)
     (hL : ∀ k, k < font.passes.size → 1 ≤ (font.passes.getD k default).maxLoop) {w : String} (e : shape font text fuel dir = .error w) :
-    (∃ p c s, findNDoRule p c s = .error w) ∨ w = "associateChars: char-info access out of range" := shape_error font text fuel dir hi hL e
+    EngineError w ∨ w = "associateChars: char-info access out of range" := shape_error font text fuel dir hi hL e
 
 /-! non-vacuity: the rule `b c c > next; next; delete; return -4` (the shape of the defect's witness) on `aaaaab cccccccc`:
 one deletion, 13 iterations against a bound of 912, not exceeded -/
